@@ -361,12 +361,16 @@ class ModesStream(es.E2EStream):
             except Exception:
                 continue
             gaps = sorted({int(r['gap']) for r in info if r['gap'] == int(r['gap']) and r['gap'] > 0})
+            rest = [x for k, x in enumerate(c['extra']) if not (x == '-diff' or (k > 0 and c['extra'][k - 1] == '-diff'))]
             if gaps:
                 g = gaps[len(gaps) // 2]
-                rest = [x for k, x in enumerate(c['extra']) if not (x == '-diff' or (k > 0 and c['extra'][k - 1] == '-diff'))]
                 extra.append(dict(c, extra=rest + ['-diff', str(g)], boundary='gap == diff'))
                 if tier != 'quick':
                     extra.append(dict(c, extra=rest + ['-diff', str(g - 1)], boundary='gap == diff + 1'))
+            # -diff is an integer but coordinates are not: a record joined across a gap of g + 0.5 must NOT be joined with -diff g
+            fgaps = sorted({int(r['gap']) for r in info if r['gap'] != int(r['gap']) and r['gap'] > 1})
+            if fgaps and len([e for e in extra if e.get('boundary') == 'gap == diff + 0.5']) < max(1, want // 3):
+                extra.append(dict(c, extra=rest + ['-diff', str(fgaps[len(fgaps) // 2])], boundary='gap == diff + 0.5'))
         prewarm(extra)
         return cases + extra
 
